@@ -584,7 +584,7 @@ pub fn chance(rng: &mut SmallRng, num: u32, den: u32) -> bool {
 // Crash-isolated case execution
 // ---------------------------------------------------------------------------------------------
 
-fn case_to_json(r: &CaseResult) -> Value {
+pub fn case_to_json(r: &CaseResult) -> Value {
     let (v, sig, detail, why) = match &r.verdict {
         Verdict::Held => ("held", None, None, None),
         Verdict::Violated { signature, detail } => ("violated", Some(signature.clone()), Some(detail.clone()), None),
@@ -594,7 +594,7 @@ fn case_to_json(r: &CaseResult) -> Value {
            "counters": r.counters, "sample": r.sample})
 }
 
-fn case_from_json(v: &Value) -> Option<CaseResult> {
+pub fn case_from_json(v: &Value) -> Option<CaseResult> {
     let verdict = match v["verdict"].as_str()? {
         "held" => Verdict::Held,
         "violated" => Verdict::Violated {
@@ -785,4 +785,31 @@ where
     let mut v = results.into_inner().unwrap();
     v.sort_by_key(|(i, _)| *i);
     v.into_iter().map(|(_, r)| r).collect()
+}
+
+
+/// Run a sibling monitor binary (same target directory) in `--emit <prop>` mode and import the
+/// `R <json>` case results it prints. A failure to run it is an inconclusive result.
+pub fn import_emitted(bin: &str, prop: &str, args: &Args, keep: impl Fn(&CaseResult) -> bool) -> Vec<CaseResult> {
+    let exe = match std::env::current_exe() {
+        Ok(e) => e.with_file_name(bin),
+        Err(e) => return vec![CaseResult::inconclusive(bin, format!("current_exe: {e}"))],
+    };
+    if !exe.exists() {
+        return vec![CaseResult::inconclusive(bin, format!("{} not built", exe.display()))];
+    }
+    let out = std::process::Command::new(&exe)
+        .args(["--tier", args.tier.name(), "--seed", &args.seed.to_string(), "--emit", prop])
+        .output();
+    match out {
+        Ok(o) if o.status.success() => String::from_utf8_lossy(&o.stdout)
+            .lines()
+            .filter_map(|l| l.strip_prefix("R "))
+            .filter_map(|j| serde_json::from_str::<Value>(j).ok())
+            .filter_map(|v| case_from_json(&v))
+            .filter(|r| keep(r))
+            .collect(),
+        Ok(o) => vec![CaseResult::inconclusive(bin, format!("{bin} --emit {prop} exited with {:?}", o.status.code()))],
+        Err(e) => vec![CaseResult::inconclusive(bin, format!("cannot run {bin}: {e}"))],
+    }
 }
